@@ -104,6 +104,8 @@ func kindOf(name string) string {
 		return "nofault"
 	case g == "canary":
 		return "canary"
+	case strings.HasPrefix(g, "cover"):
+		return "cover"
 	case strings.HasPrefix(g, "witness"):
 		return "witness"
 	case strings.HasPrefix(g, "safe"):
@@ -451,7 +453,7 @@ func Run(opt Options, own, used []*Module, all []*Module) *RunResult {
 			defer wg.Done()
 			sem <- struct{}{}
 			defer func() { <-sem }()
-			canary := strings.HasSuffix(j.obl.Name, "#canary") || strings.HasSuffix(j.obl.Name, "#axioms-consistent")
+			canary := strings.HasSuffix(j.obl.Name, "#canary") || strings.HasSuffix(j.obl.Name, "#axioms-consistent") || kindOf(j.obl.Name) == "cover"
 			o := smt.Options{Timeout: timeout, QuantTimeout: 5 * time.Second, DumpDir: opt.DumpDir, Seed: opt.Seed}
 			if canary {
 				// a canary is expected to be sat/unknown: do not spend the full timeout on it
@@ -502,6 +504,17 @@ func Run(opt Options, own, used []*Module, all []*Module) *RunResult {
 			o.Raw = worst.res.Raw
 			o.worstQ = worst.q
 			o.Skolems = worst.res.GoalSkolems
+		}
+		if o.Kind == "cover" {
+			// reachability goal: it holds unless every normal exit is refuted together with the cover condition
+			if status == "discharged" {
+				status = "failed"
+				o.Detail = "unreachable"
+				o.Raw = "no normal exit of the function is compatible with the cover condition: a documented success now faults (or the contract became contradictory)"
+			} else {
+				status = "discharged"
+				o.Detail, o.Model, o.Raw = "", nil, ""
+			}
 		}
 		if o.Kind == "canary" || o.Kind == "axioms" {
 			if status == "discharged" { // false was proved on every exit (or there is no exit)
